@@ -57,7 +57,29 @@ def build_entry(s):
     return e
 
 
+class SubEntry(Entry):
+    """An application-defined subclass of a model class: is-a Entry for everything the library does."""
+
+
+class SubComment(ExplicitComment):
+    pass
+
+
+class SubFailed(ParsingFailedBlock):
+    pass
+
+
+_SUBCLASS = {Entry: SubEntry, ExplicitComment: SubComment, ParsingFailedBlock: SubFailed}
+
+
 def build_block(s):
+    b = _build_block(s)
+    if s.get("sub") and type(b) in _SUBCLASS:
+        b.__class__ = _SUBCLASS[type(b)]
+    return b
+
+
+def _build_block(s):
     t = s["t"]
     if t == "entry":
         return build_entry(s)
@@ -182,6 +204,9 @@ def st_writer_library(max_blocks=8):
             if ents:
                 e = ents[bi % len(ents)]
                 e["fields"] = list(e["fields"]) + [{"same": of}]
+            # ... and some blocks are instances of application-defined subclasses of the model classes
+            if blocks and blocks[(bi + of) % len(blocks)]["t"] in ("entry", "ecomment", "failed"):
+                blocks[(bi + of) % len(blocks)]["sub"] = True
         return blocks
 
     pairs = st.lists(st.tuples(st.integers(0, 9), st.integers(0, 9)), max_size=2)
